@@ -484,3 +484,16 @@ pub fn finish(ctx: &Ctx, mut rep: Report, replay: &dyn Fn(&Value) -> Vec<Violati
     }
     0
 }
+
+
+/// In a check function returning `Option<(rule, what)>`: an API call of the subject that fails on a
+/// fault-free path is an observation (`unexpected_api_error`), never silently "no violation".
+#[macro_export]
+macro_rules! orv {
+    ($e:expr, $what:expr) => {
+        match $e {
+            Ok(x) => x,
+            Err(e) => return Some(("unexpected_api_error".to_string(), format!("{}: {:?}", $what, e))),
+        }
+    };
+}
